@@ -28,7 +28,8 @@ ASSUMPTIONS = [
     "out-of-range indices must raise IndexError; where the manual leaves the exception class open any of "
     "TypeError/ValueError/NotImplementedError (type or size errors) resp. ZeroDivisionError/ValueError/"
     "ArithmeticError/OverflowError (arithmetic domain errors) is accepted; SystemError never is",
-    "index values stay below 100 in magnitude; indices near 2^31/2^63 belong to C19",
+    "index values stay below 100 in magnitude, except the two-integer form A[i,j] with i or j beyond 32 bits (must raise IndexError); "
+    "other indices near 2^31/2^63 belong to C19",
     "after an operation that raised, every variable must be unchanged",
 ]
 REQUIRED_COUNTERS = [
@@ -36,7 +37,7 @@ REQUIRED_COUNTERS = [
     "c15.class.construct", "c15.construct.strided-buffer", "c15.class.alias", "c15.class.getitem1", "c15.class.getitem2",
     "c15.class.setitem1", "c15.class.setitem2", "c15.class.binop", "c15.class.inplace",
     "c15.class.unary", "c15.class.size", "c15.class.query", "c15.class.elementwise", "c15.class.overflow",
-    "c15.class.mutate-result",
+    "c15.class.mutate-result", "c15.overflow.index2-beyond-int32", "c15.overflow.numbers-only-mul", "c15.overflow.numbers-only-emax",
     "c15.index.int", "c15.index.negint", "c15.index.int-oor", "c15.index.slice", "c15.index.list",
     "c15.index.list-neg", "c15.index.list-oor", "c15.index.list-empty", "c15.index.imat", "c15.index.imat-neg",
     "c15.index.imat-oor",
@@ -526,7 +527,10 @@ def run(ctx):
             """small dedicated class: integers that do not fit the matrix's integer type"""
             big = rng.choice(["2**63", "2**64", "(-2**63 - 1)", "2**70", "10**30"])
             cands = [n for n in ls.live() if ls.ref[n].tc == "i" and ls.ref[n].m * ls.ref[n].n > 0]
-            forms = ["construct-number", "construct-list", "construct-tc-d"]
+            forms = ["construct-number", "construct-list", "construct-tc-d", "numbers-only-elementwise"]
+            anym = [n for n in ls.live() if isinstance(ls.ref[n], Ref) and ls.ref[n].m * ls.ref[n].n > 0]
+            if anym:
+                forms += ["index2-beyond-int32", "index2-beyond-int32"]
             if cands:
                 forms += ["setitem", "setitem-list", "add", "mul", "iadd"]
             f = rng.choice(forms)
@@ -537,6 +541,25 @@ def run(ctx):
                 src = "%s = matrix([1, %s])" % (t, big)
             elif f == "construct-tc-d":
                 src = "%s = matrix(2**1100, (1,1), 'd')" % t
+            elif f == "numbers-only-elementwise":
+                # plain Python integers that fit the matrix integer type (64 bits) but not a C int
+                a_, b_ = rng.choice([(2**40, 3), (3, 2**40), (-2**40, 3), (2**20, 2**20), (2**31, 1), (-2**31 - 1, 2), (2**33 + 5, 2**33 + 4)])
+                fn = rng.choice(["mul", "emax", "emin"])
+                ctx.count("c15.overflow.numbers-only-" + fn)
+                do("_ = %s(%d, %d)" % (fn, a_, b_), "overflow:numbers-only-" + fn, "_")
+                return
+            elif f == "index2-beyond-int32":
+                # two-integer indexing with an index that is a multiple of 2^32 (+ a valid index): out of range, IndexError
+                a = rng.choice(anym)
+                r = ls.ref[a]
+                hi = rng.choice([2**32, -2**32, 2**33, 2**32 + rng.randrange(r.m), 2**31, -2**31 - 1, 2**40])
+                i_, j_ = (hi, rng.randrange(r.n)) if rng.random() < 0.5 else (rng.randrange(r.m), rng.choice([2**32, -2**32, 2**32 + rng.randrange(r.n), 2**36]))
+                ctx.count("c15.overflow.index2-beyond-int32")
+                if rng.random() < 0.5:
+                    do("_ = %s[%d, %d]" % (a, i_, j_), "overflow:getitem2-beyond-int32", "_")
+                else:
+                    do("%s[%d, %d] = %r" % (a, i_, j_, rnum(rng, r.tc)), "overflow:setitem2-beyond-int32")
+                return
             else:
                 a = rng.choice(cands)
                 src = {"setitem": "%s[0] = %s" % (a, big), "setitem-list": "%s[0:1] = [%s]" % (a, big),
@@ -546,7 +569,7 @@ def run(ctx):
 
         GENS = [(g_construct, 14), (g_alias, 5), (lambda: g_getitem(False), 9), (lambda: g_getitem(True), 9),
                 (lambda: g_setitem(False), 9), (lambda: g_setitem(True), 9), (g_binop, 16), (g_inplace, 12),
-                (g_unary, 6), (g_size, 4), (g_query, 6), (g_elementwise, 7), (g_overflow, 0.6)]
+                (g_unary, 6), (g_size, 4), (g_query, 6), (g_elementwise, 7), (g_overflow, 1.2)]
         tot = sum(w for _, w in GENS)
 
         # initial pool
